@@ -139,8 +139,10 @@ pub fn classify(compressed: bool, frame: &[u8]) -> Option<(Class, String)> {
             Some((c, dbg))
         },
         Some(Ok(None)) => None,
-        Some(Err(Error::BinRw(_))) => if b.is_empty() { Some((Class::Err, "ERR".into())) } else { None },
-        Some(Err(_)) => None,
+        // a frame the codec removed from the buffer but could not turn into a packet is a per-frame decode error whatever error value
+        // the library chose for it (the session oracle then insists on the decode-error result and on the session carrying on)
+        Some(Err(Error::IO { kind: std::io::ErrorKind::InvalidData, .. })) if !b.is_empty() => None,
+        Some(Err(_)) => if b.is_empty() { Some((Class::Err, "ERR".into())) } else { None },
     }
 }
 
@@ -348,6 +350,7 @@ pub fn frame_pool(rng: &mut Rng, compressed: bool) -> Vec<Vec<u8>> {
     for subt in 0..32u8 { for reqi in [0u8, 1, 255] { v.push(raw_frame(compressed, 3, reqi, &[subt])); } }
     if let Some(ver) = defaults.iter().find(|f| f[1] == 2) {
         for ins in [0u8, 1, 8, 9, 10, 255] { let mut f = ver.clone(); let n = f.len(); f[n - 2] = ins; f[4] = b'0'; f[5] = b'.'; f[6] = b'7'; f[7] = b'F'; v.push(f); }
+        for (k, sp) in [1u8, 9, 128, 255].iter().enumerate() { let mut f = ver.clone(); let n = f.len(); f[n - 2] = [9u8, 8, 10, 9][k]; f[n - 1] = *sp; f[4] = b'0'; f[5] = b'.'; f[6] = b'7'; f[7] = b'F'; v.push(f); }
         for (k, t) in GOOD_VERSION_TEXTS.iter().enumerate() { let mut f = ver.clone(); let n = f.len(); f[n - 2] = [9u8, 8, 10][k % 3]; for j in 0..8 { f[4 + j] = *t.as_bytes().get(j).unwrap_or(&0); } v.push(f); }
     }
     for d in &defaults { for _ in 0..2 { let mut f = d.clone(); if f.len() > 3 { let i = 3 + rng.below((f.len() - 3) as u64) as usize; f[i] = rng.byte(); } v.push(f); } }
